@@ -915,6 +915,11 @@ func (ctx Ctx) basicLiteral(e *ast.BasicLit) coq.Expr {
 	if e.Kind == token.INT {
 		info, _ := getIntegerType(ctx.typeOf(e))
 		v := ctx.info.Types[e].Value
+		if v.Kind() != constant.Int {
+			// e.g. the 2 in float64(x) / 2
+			ctx.unsupported(e, "int literal used at type %v", ctx.typeOf(e))
+			return nil
+		}
 		n, ok := constant.Uint64Val(v)
 		if !ok {
 			ctx.unsupported(e,
